@@ -45,6 +45,21 @@ CLAIMED.update({
         ref='6 C20'),
 })
 
+CLAIMED.update({
+    'C03': dict(
+        text='Layout templates (branches, j, jal, call, tail, shrinking li, data, aligns, symbolic gaps up to 8 MiB) run through the whole real assemble() in both modes; on every accepting path each transfer is decoded by the reference semantics and must land on the label offset recomputed from the emitted chunks, and the reported label table must equal those offsets.',
+        note='Trusted: spec/sem.py decoding, the chunk list seen at resolve_blobs (wrapped from outside), z3, stubs. Bound: the template set (<= 12 lines each), gap sizes, li widths in evidence.',
+        ref='6 C03'),
+    'C08': dict(
+        text='Same templates with %offset, %position, bare labels, %hi/%lo(label) in instructions, li and dw/pack data: the decoded immediate / executed li result / data word equals the value computed from label offsets recomputed from the output, for all gap sizes and base addresses.',
+        note='Trusted: as C03.',
+        ref='6 C08'),
+    'C09': dict(
+        text='Kernel: the real Align.resolution_size for symbolic position and each alignment 1..64 and larger constants gives 0 <= pad < N with (pos+pad) % N == 0. Programs: on every path the chunk list is in source order, labels/constants contribute nothing, each item its documented size, each align its minimal zero padding, and the output is exactly the concatenation.',
+        note='Trusted: documented sizes (docs/assembly_language.rst) as read by harness/layout.classify, z3, stubs. Bound: alignments and template set in evidence; symbolic non-power-of-two N inside whole programs only as constants.',
+        ref='6 C09'),
+})
+
 NOT_YET = {}
 
 
